@@ -240,7 +240,7 @@ def jToken? (j : Json) : Option Eval.Token := do
   let k ← jStr? (← a[0]?)
   let t ← jStr? (← a[1]?)
   let kind := match k with
-    | "op" => Eval.TokKind.op | "number" => .number | "name" => .name | "end" => .endmarker | _ => .other
+    | "op" => Eval.TokKind.op | "number" => .number | "name" => .name | "end" => .endmarker | "string" => .string | _ => .other
   pure ⟨kind, t⟩
 
 def stepTree (j : Json) : Json :=
@@ -571,7 +571,7 @@ def jMArg? (j : Json) : Option Meas.Arg :=
 def measJ (m : Meas.M) : Json := Json.mkObj [("n", ratJ m.nominal), ("s", ratJ m.std), ("u", ucJ m.units)]
 
 def tokKindStr : Eval.TokKind → String
-  | .op => "op" | .number => "number" | .name => "name" | .endmarker => "end" | .other => "other"
+  | .op => "op" | .number => "number" | .name => "name" | .endmarker => "end" | .string => "string" | .other => "other"
 
 def stepMeas (st : DriverState) (j : Json) : DriverState × Json :=
   let R0 := st.reg
